@@ -57,3 +57,10 @@ Inductive jkind := JScalar (k : okind) | JManual | JDict | JArray | JNone.
 Record jentry := mk_jentry { je_path : list bstr; je_kind : jkind; je_choices : list bstr; je_target : otarget }.
 
 Inductive snode := SString | SDict | SArray | SNull.
+
+(* ---- a call on the Config layer.  obj: c_main c_pages c_enc c_uo c_att c_copy_att c_global *)
+Inductive cfg_call := CCall (obj meth : bstr) (args : list bstr).
+
+(* ---- a parsed job JSON value: strings, other scalars (numbers, booleans, null), arrays, objects (members in the order the
+   parser delivers them: std::map order, i.e. byte order of the keys) *)
+Inductive jjv := JJStr (s : bstr) | JJOther | JJArr (l : list jjv) | JJObj (l : list (bstr * jjv)).
